@@ -234,7 +234,7 @@ type ReqProof struct {
 
 func (s *Seq) sxProof(rp ReqProof) Sx {
 	lock := A("plain")
-	return L(N(rp.P.Amount), s.sxKs(rp.P.Id), I(s.symSecret(rp.P.Secret)), B(rp.Long), rp.C.sx(), I(rp.C.Enc),
+	return L(N(rp.P.Amount), s.sxKs(rp.P.Id), I(s.symSecret(rp.P.Secret)), B(len(rp.P.Secret) > 512), rp.C.sx(), I(rp.C.Enc),
 		I(s.symWitness(rp.P.Witness)), I(rp.Dleq), lock)
 }
 
@@ -851,7 +851,7 @@ func (s *Seq) recordSigs(outs []ReqOut, sigs cashu.BlindedSignatures, op string)
 		if outs[i].O != nil {
 			p, err := s.env.Unblind(*outs[i].O, sg)
 			if err == nil {
-				hp := &HProof{P: p, SecretId: s.symSecret(p.Secret), KsIdx: s.env.ksIdx[sg.Id], Amount: sg.Amount}
+				hp := &HProof{P: p, SecretId: s.symSecret(p.Secret), KsIdx: s.env.ksIdx[sg.Id], Amount: sg.Amount, Long: len(p.Secret) > 512}
 				if old, ok := s.bySecret[p.Secret]; ok {
 					_ = old // same secret signed again (different r): the second proof is the same ecash
 				} else {
@@ -891,7 +891,7 @@ func (s *Seq) consume(ps []ReqProof, op string, res opResult) {
 		}
 		seen[sec] = true
 		hp := s.bySecret[sec]
-		if hp == nil || rp.C.Kind != "sig" || rp.C.Ks != hp.KsIdx || rp.C.Amt != rp.P.Amount || s.env.ksIdx[rp.P.Id] != hp.KsIdx || rp.C.Sec != hp.SecretId || rp.Long {
+		if hp == nil || rp.C.Kind != "sig" || rp.C.Ks != hp.KsIdx || rp.C.Amt != rp.P.Amount || s.env.ksIdx[rp.P.Id] != hp.KsIdx || rp.C.Sec != hp.SecretId || len(rp.P.Secret) > 512 {
 			what := "not a genuine signature at its signed amount"
 			s.c.MonitorFail("C04", "C04/accepted-non-genuine/"+strings.SplitN(op, " ", 2)[0]+"/"+rp.C.Kind, "an input was accepted that is "+what, s.replay())
 			continue
